@@ -48,7 +48,7 @@ var c06Faults = []c06Fault{
 	{"property", "obj.nope"}, {"property", "d.a"}, {"property", "d.a = 1"},
 	{"callable", "5()"}, {"callable", "arr()"}, {"callable", "obj.a()"},
 	{"arity", "f1()"}, {"arity", "f1(1, 2)"},
-	{"builtin", bn.BLen + "(5)"}, {"builtin", bn.BRemove + "(arr, 9)"}, {"builtin", bn.BMin + "()"}, {"builtin", bn.BDelKey + "(obj, \"nope\")"},
+	{"builtin", bn.BLen + "(5)"}, {"builtin", bn.BRemove + "(arr, 9)"}, {"builtin", bn.BMin + "()"}, {"builtin", bn.BMin + "([])"}, {"builtin", bn.BMax + "([])"}, {"builtin", bn.BMax + "(" + bn.BRemove + "([1], 0))"}, {"builtin", bn.BDelKey + "(obj, \"nope\")"},
 	// a failing base under a chain of further accesses / calls
 	{"index", "arr[5][0][1]"}, {"property", "obj.nope.a.b"}, {"callable", "5()()()"}, {"index", "arr[5].a[0]"}, {"undefined", "zz[0][1]"}, {"undefined", "zz.a.b"}, {"undefined", "zz()()"},
 	{"builtin", bn.BInput + "(5)"}, {"builtin", bn.BAbs + "(nil)"}, {"builtin", bn.BLen + "()"}, {"builtin", bn.BPush + "(arr)"}, {"builtin", bn.BKeys + "(arr)"},
@@ -126,6 +126,18 @@ var c06StmtPositions = []struct{ name, text string }{
 	{"block", "{\n  দেখাও \"in\";\n  %s\n  দেখাও \"in-after\";\n}\n"},
 	{"if-arm", "যদি (1) {\n  %s\n}\n"},
 	{"else-arm", "যদি (0) x = 1; নাহয় {\n  %s\n}\n"},
+}
+
+// statement faults inside function bodies: a stray break/continue there is as stray as at top level
+// (no loop of the activation encloses it), whether or not the caller sits in a loop
+func init() {
+	P, F, I, W := bn.KwPrint, bn.KwFun, bn.KwIf, bn.KwWhile
+	c06StmtPositions = append(c06StmtPositions,
+		struct{ name, text string }{"function-body", F + " sg() {\n  " + P + " \"in-sg\";\n  %s\n  " + P + " \"in-sg-after\";\n}\nsg();\n"},
+		struct{ name, text string }{"function-body-if-arm", F + " sg(n) {\n  " + I + " (n == 1) {\n    %s\n  }\n  " + P + " n;\n}\nsg(0);\nsg(1);\n"},
+		struct{ name, text string }{"function-called-in-loop", F + " sg() {\n  %s\n}\n" + W + " (x < 2) {\n  x = x + 1;\n  sg();\n  " + P + " \"iter\";\n}\n"},
+		struct{ name, text string }{"function-called-in-expression", F + " sg() {\n  %s\n}\n" + P + " pr(\"first-operand\", 1) + sg() + pr(\"later-operand\", 1);\n"},
+	)
 }
 
 func c06Kinds(k string) bool { return true }
